@@ -211,6 +211,26 @@ def workload(ctx, repo):
     for case in REGRESSION_CASES:
         ctx.case = case
         run_case(ctx, repo, case)
+    # every ordered pair of offsets from a grid (whole hours -4..+4, the
+    # sub-hour ones of either sign, some larger ones): the same instant and
+    # an hour apart
+    i = 0
+    base = R.days_before_year("gregorian", 2001) * 86400 + 59 * 86400 + 1800
+    for oa in gen.OFFSET_GRID:
+        for ob in gen.OFFSET_GRID:
+            i += 1
+            if not ctx.mine(i):
+                continue
+            mode = R.MODES[i % 4] if i % 3 == 0 else "gregorian"
+            for delta in (0, 3600):
+                a = gen.tp_from_instant(rng, mode, base + delta, offset=oa,
+                                        allow_2400=False)
+                b = gen.tp_from_instant(rng, mode, base, offset=ob,
+                                        allow_2400=False)
+                case = {"op": "pair", "mode": mode, "a": a, "b": b}
+                ctx.case = case
+                ctx.ev("cases.offset-grid")
+                run_case(ctx, repo, case)
     n = 24000 if ctx.tier == "quick" else 60000
     for k in range(n):
         mode = rng.choice(R.MODES) if k % 2 else "gregorian"
